@@ -93,7 +93,8 @@ pub fn check(ctx: &Ctx) -> i32 {
                                 // variant: after the first audio frame a frame with a later
                                 // timestamp and an invalid payload is submitted and rejected
                                 with_reject = ops.clone();
-                                with_reject.push(Op::WA { pts: T(at + 0.5), data: Bytes::new(vec![0x03]) });
+                                // its timestamp lies between this frame and the next one
+                                with_reject.push(Op::WA { pts: T(at + asteps[0] / 4.0), data: Bytes::new(vec![0x03]) });
                             } else {
                                 with_reject.push(ops.last().unwrap().clone());
                             }
